@@ -16,7 +16,8 @@ Section Sem.
   Variable risk_sem : string -> string -> list nat -> store -> bool.
   Variable loop_len : string -> list nat -> store -> nat.
 
-  (* An error / panic of an unwrapped statement leaves its partial writes in place (there is no
+  (* [OnErr r c] (closures only): how the closure treats the error the call c reports.
+     An error / panic of an unwrapped statement leaves its partial writes in place (there is no
      branch of the store to drop) and ends the enclosing function: Go's early return.  Only
      [Wrapped] turns a failure into "nothing happened, go on". *)
   Fixpoint exec (h : hook) (idx : list nat) (s : store) : run_result store :=
@@ -37,6 +38,10 @@ Section Sem.
     | Call name _ => call_sem name idx s
     | Risk k t => if risk_sem k t idx s then RunPanic s else RunOk s
     | Unrecognised _ => RunPanic s
+    | OnErr ReturnsCallErr c => exec c idx s
+    (* the closure drops the error and goes on: whatever the call wrote before it failed stays on
+       the closure's branch of the store.  An unread shape is given the same (worst) meaning. *)
+    | OnErr _ c => match exec c idx s with RunErr p _ => RunOk p | other => other end
     end.
 
   (* what the chain sees after the hook: Halt = a panic left the hook (consensus failure) *)
@@ -54,6 +59,73 @@ Arguments Returned {store} s.
 Arguments Halt {store}.
 
 (* ------------------------------------------------------------------------------------------ *)
+(* types/utils.go ApplyFuncIfNoError itself, as read by the translator (apply_func_shape)      *)
+(* ------------------------------------------------------------------------------------------ *)
+Section ApplySem.
+  Variable store : Type.
+  (* the Go frame: the store of the caller's context, the branch opened by CacheContext (if any),
+     "err != nil", and whether a deferred recover() has been registered *)
+  Record astate := mkA { a_parent : store; a_cache : option store; a_err : bool; a_recover : bool }.
+  Inductive aflow := AGo (st : astate) | ADone (st : astate) | APanicked (st : astate) | ABad.
+
+  Fixpoint run_astmt (f : unit_of_work store) (x : apply_stmt) (st : astate) {struct x} : aflow :=
+    match x with
+    | ADeferRecover => AGo (mkA (a_parent st) (a_cache st) (a_err st) true)
+    | ACacheCtx => AGo (mkA (a_parent st) (Some (a_parent st)) (a_err st) (a_recover st))
+    | ARunOnCache =>
+        match a_cache st with
+        | None => ABad
+        | Some c =>
+            match f c with
+            | RunOk s' => AGo (mkA (a_parent st) (Some s') false (a_recover st))
+            | RunErr p _ => AGo (mkA (a_parent st) (Some p) true (a_recover st))
+            | RunPanic p => APanicked (mkA (a_parent st) (Some p) (a_err st) (a_recover st))
+            end
+        end
+    | ARunOnParent =>
+        match f (a_parent st) with
+        | RunOk s' => AGo (mkA s' (a_cache st) false (a_recover st))
+        | RunErr p _ => AGo (mkA p (a_cache st) true (a_recover st))
+        | RunPanic p => APanicked (mkA p (a_cache st) (a_err st) (a_recover st))
+        end
+    | AWrite =>
+        match a_cache st with
+        | None => ABad
+        | Some c => AGo (mkA c (a_cache st) (a_err st) (a_recover st))
+        end
+    | AIfErrNil yes no =>
+        let fix go (l : list apply_stmt) (st : astate) : aflow :=
+          match l with
+          | [] => AGo st
+          | y :: r => match run_astmt f y st with AGo st1 => go r st1 | other => other end
+          end in
+        if a_err st then go no st else go yes st
+    | ALog => AGo st
+    | AReturnErr | AReturnNil => ADone st
+    | AUnrecognised _ => ABad
+    end.
+
+  Fixpoint run_alist (f : unit_of_work store) (l : list apply_stmt) (st : astate) : aflow :=
+    match l with
+    | [] => AGo st
+    | y :: r => match run_astmt f y st with AGo st1 => run_alist f r st1 | other => other end
+    end.
+
+  (* what the caller of ApplyFuncIfNoError sees: its store afterwards, or a panic that left the
+     function (no recover registered before it, or a statement the translator does not read) *)
+  Inductive apply_outcome := AppReturned (s : store) | AppHalt.
+  Definition run_apply (prog : list apply_stmt) (f : unit_of_work store) (s : store) : apply_outcome :=
+    match run_alist f prog (mkA s None false false) with
+    | AGo st | ADone st => AppReturned (a_parent st)
+    | APanicked st => if a_recover st then AppReturned (a_parent st) else AppHalt
+    | ABad => AppHalt
+    end.
+End ApplySem.
+Arguments run_apply {store} prog f s.
+Arguments AppReturned {store} s.
+Arguments AppHalt {store}.
+
+(* ------------------------------------------------------------------------------------------ *)
 (* reading the table                                                                           *)
 (* ------------------------------------------------------------------------------------------ *)
 Fixpoint lookup (name : string) (t : list (string * hook)) : option hook :=
@@ -69,6 +141,7 @@ Fixpoint resolve (fuel : nat) (t : list (string * hook)) (h : hook) {struct fuel
     | Seq l => Seq (map go l)
     | ForEach items b => ForEach items (go b)
     | Wrapped b => Wrapped (go b)
+    | OnErr r c => OnErr r (go c)
     | Call n Expand =>
         match fuel with
         | O => Unrecognised ("expansion too deep: " ++ n)
@@ -81,7 +154,7 @@ Fixpoint resolve (fuel : nat) (t : list (string * hook)) (h : hook) {struct fuel
     end in
   go h.
 
-Inductive frame := FLoop (items : string) | FWrap.
+Inductive frame := FLoop (items : string) | FWrap | FErr (r : err_result).
 
 Inductive leaf_kind := LCall (name : string) (k : call_kind) | LRisk (kind text : string) | LUnrec (what : string).
 Record leaf := mkLeaf { lf_kind : leaf_kind; lf_path : list frame (* innermost first *) }.
@@ -94,6 +167,7 @@ Fixpoint leaves (h : hook) (path : list frame) : list leaf :=
   | Call n k => [mkLeaf (LCall n k) path]
   | Risk k t => [mkLeaf (LRisk k t) path]
   | Unrecognised w => [mkLeaf (LUnrec w) path]
+  | OnErr r c => leaves c (FErr r :: path)
   end.
 
 Definition resolved (t : list (string * hook)) (root : string) : hook := resolve 8 t (Call root Expand).
@@ -108,6 +182,7 @@ Fixpoint wrap_inside_loop (items : string) (p : list frame) : bool :=
   | [] => false
   | FWrap :: _ => true
   | FLoop i :: r => if String.eqb i items then false else wrap_inside_loop items r
+  | FErr _ :: r => wrap_inside_loop items r
   end.
 
 Fixpoint in_loop (items : string) (p : list frame) : bool :=
@@ -115,7 +190,24 @@ Fixpoint in_loop (items : string) (p : list frame) : bool :=
   | [] => false
   | FLoop i :: r => String.eqb i items || in_loop items r
   | FWrap :: r => in_loop items r
+  | FErr _ :: r => in_loop items r
   end.
+
+Definition is_read_leaf (l : leaf) : bool := match lf_kind l with LCall _ Reads => true | _ => false end.
+
+(* does an error reported by the leaf reach the result of the closure it stands in (the nearest
+   ApplyFuncIfNoError above it)?  Every [OnErr] between the leaf and that wrap must hand it on. *)
+Fixpoint err_reaches_wrap (p : list frame) : bool :=
+  match p with
+  | [] => false
+  | FWrap :: _ => true
+  | FErr ReturnsCallErr :: r => err_reaches_wrap r
+  | FErr _ :: _ => false
+  | FLoop _ :: r => err_reaches_wrap r
+  end.
+
+Definition err_frame_recognised (f : frame) : bool :=
+  match f with FErr (UnrecognisedErr _) => false | _ => true end.
 
 (* ------------------------------------------------------------------------------------------ *)
 (* the units of work the property names                                                        *)
@@ -179,7 +271,27 @@ Definition unit_is_wrapped (t : list (string * hook)) (u : unit_spec) : bool :=
     let occ := filter (fun l => leaf_is_call c l && (String.eqb (u_loop u) "" || in_loop (u_loop u) (lf_path l))) ls in
     negb (Nat.eqb (length occ) 0) && forallb (fun l => path_ok u (lf_path l)) occ) (u_calls u).
 
+(* the error-return half of "all-or-nothing": every call of the unit hands its error on to the result
+   of the closure it stands in, i.e. no [OnErr SwallowsErr] / [OnErr (UnrecognisedErr _)] lies between
+   the call and the nearest ApplyFuncIfNoError above it (calls without an error result carry no frame:
+   they report nothing).  Same occurrences as [unit_is_wrapped]. *)
+Definition unit_propagates_error (t : list (string * hook)) (u : unit_spec) : bool :=
+  let ls := root_leaves t (u_root u) in
+  forallb (fun c =>
+    let occ := filter (fun l => leaf_is_call c l && (String.eqb (u_loop u) "" || in_loop (u_loop u) (lf_path l))) ls in
+    negb (Nat.eqb (length occ) 0) && forallb (fun l => err_reaches_wrap (lf_path l)) occ) (u_calls u).
+
+(* ... and beyond the calls the units name: EVERY leaf under an ApplyFuncIfNoError that is not a plain
+   read (state-changing calls, expanded rows, risky constructs) hands its error on to the nearest
+   wrap above it, in every hook *)
+Definition wrapped_leaf_propagates (l : leaf) : bool :=
+  negb (under_wrap (lf_path l)) || is_read_leaf l || err_reaches_wrap (lf_path l).
+
 (* No unit is exempted: every unit of [hook_units] must be wrapped on the regenerated table.
+   Likewise for [unit_propagates_error]: the incentive hook and the emergency-shutdown hook used to run
+   their steps inside ONE closure that logged / skipped a step's error (OnErr SwallowsErr on the
+   regenerated rows: findings C15-F4 and C15-F5, reproduced with reachable failing-late steps); since
+   the fixes each step runs in its own ApplyFuncIfNoError whose closure returns the step's error.
    History of the former exemptions (classes of known findings, all repaired or withdrawn):
    - kf_C15_1, the V2 borrow unit: LiquidateBorrows runs each borrow inside ApplyFuncIfNoError since
      fix C09-F3 / C15-F1;
@@ -291,3 +403,19 @@ Definition trigger_obs_diff (failed : bool) (dcoll dnet dlocked dauction dactive
 (* what the table predicts for a failure injected into the unit [uid]: wrapped units show no writes *)
 Definition table_says_wrapped (uid : string) : bool :=
   existsb (fun u => String.eqb (u_id u) uid && unit_is_wrapped hook_table u) hook_units.
+
+(* what the table predicts for a unit [uid] that RETURNS AN ERROR after it has written: the error
+   reaches ApplyFuncIfNoError, which drops the unit's branch of the store *)
+Definition table_says_propagates (uid : string) : bool :=
+  existsb (fun u => String.eqb (u_id u) uid && unit_propagates_error hook_table u) hook_units.
+
+(* ... and ApplyFuncIfNoError as read from types/utils.go drops the branch on an error: evaluated on
+   the two-point store {false = as before, true = the unit's partial writes} with a unit that
+   writes and then reports failure / writes and panics / writes and succeeds *)
+Definition table_says_apply_atomic : bool :=
+  match run_apply apply_func_shape (fun _ : bool => RunErr true 1) false,
+        run_apply apply_func_shape (fun _ : bool => RunPanic true) false,
+        run_apply apply_func_shape (fun _ : bool => RunOk true) false with
+  | AppReturned false, AppReturned false, AppReturned true => true
+  | _, _, _ => false
+  end.
